@@ -4,7 +4,7 @@
 from __future__ import annotations
 
 from io import BytesIO
-from typing import TYPE_CHECKING, BinaryIO, TypeVar, final
+from typing import TYPE_CHECKING, BinaryIO, TypeVar, cast, final
 
 from pyoda_time.utility._csharp_compatibility import _private, _sealed
 
@@ -54,7 +54,11 @@ class _TzdbStreamField:
             field_id = stream.read(1)
             if not field_id:
                 break
-            id_ = _TzdbStreamFieldId(field_id[0])
+            try:
+                id_ = _TzdbStreamFieldId(field_id[0])
+            except ValueError:
+                # Unknown field IDs are kept as plain ints; they have no handler, so they are skipped.
+                id_ = cast(_TzdbStreamFieldId, field_id[0])
             # Read 7-bit encoded length
             length = _DateTimeZoneReader._ctor(stream, None).read_count()
             data = bytearray()
